@@ -276,7 +276,13 @@ func (vm *VirtualMachine) runCodeInternal(ctx context.Context, codeToRun *compil
 	vm.activateCode(0, startIP, codeObj)
 
 	// Run the entrypoint until completion
-	return vm.eval(vm.initContext(ctx))
+	if err := vm.eval(vm.initContext(ctx)); err != nil {
+		return err
+	}
+	// The code may have come to its end although the context was done: a
+	// blocking primitive that was interrupted returns an ordinary value, and
+	// try() recovers from the error that a halted function returns
+	return ctx.Err()
 }
 
 // resetForNewCode resets the VM state for running a new code object
@@ -904,7 +910,13 @@ func (vm *VirtualMachine) Call(
 		}
 		vm.stop()
 	}()
-	return vm.callFunction(vm.initContext(ctx), fn, args)
+	result, err = vm.callFunction(vm.initContext(ctx), fn, args)
+	if err == nil && ctx.Err() != nil {
+		// As in runCodeInternal: the function returned although its context
+		// was done
+		return nil, ctx.Err()
+	}
+	return result, err
 }
 
 // Calls a compiled function with the given arguments. This is used internally
